@@ -1,0 +1,115 @@
+//go:build verif
+
+package tbtc
+
+import (
+	"context"
+	"math/big"
+	"sort"
+
+	"github.com/keep-network/keep-core/pkg/net"
+	"github.com/keep-network/keep-core/pkg/protocol/group"
+	"github.com/keep-network/keep-core/pkg/tecdsa"
+	"github.com/keep-network/keep-core/pkg/tecdsa/signing"
+)
+
+// Thin exported wrappers used by the out-of-tree verification harness (property C35).
+// They add no behaviour of their own.
+
+// VerifC35DoneCheck wraps the real signingDoneCheck.
+type VerifC35DoneCheck struct {
+	sdc *signingDoneCheck
+}
+
+// VerifC35NewDoneCheck calls newSigningDoneCheck.
+func VerifC35NewDoneCheck(
+	groupSize int,
+	broadcastChannel net.BroadcastChannel,
+	membershipValidator *group.MembershipValidator,
+) *VerifC35DoneCheck {
+	return &VerifC35DoneCheck{
+		sdc: newSigningDoneCheck(groupSize, broadcastChannel, membershipValidator),
+	}
+}
+
+// Listen calls signingDoneCheck.listen.
+func (v *VerifC35DoneCheck) Listen(
+	ctx context.Context,
+	message *big.Int,
+	attemptNumber uint64,
+	attemptTimeoutBlock uint64,
+	attemptMembersIndexes []group.MemberIndex,
+) {
+	v.sdc.listen(ctx, message, attemptNumber, attemptTimeoutBlock, attemptMembersIndexes)
+}
+
+// SignalDone calls signingDoneCheck.signalDone.
+func (v *VerifC35DoneCheck) SignalDone(
+	ctx context.Context,
+	memberIndex group.MemberIndex,
+	message *big.Int,
+	attemptNumber uint64,
+	result *signing.Result,
+	endBlock uint64,
+) error {
+	return v.sdc.signalDone(ctx, memberIndex, message, attemptNumber, result, endBlock)
+}
+
+// WaitUntilAllDone calls signingDoneCheck.waitUntilAllDone; timedOut reports whether the
+// returned error is errWaitDoneTimedOut.
+func (v *VerifC35DoneCheck) WaitUntilAllDone(ctx context.Context) (
+	result *signing.Result,
+	latestEndBlock uint64,
+	timedOut bool,
+	err error,
+) {
+	result, latestEndBlock, err = v.sdc.waitUntilAllDone(ctx)
+	return result, latestEndBlock, err == errWaitDoneTimedOut, err
+}
+
+// DoneSigners returns expectedSignersCount and the sorted keys of doneSigners, read under
+// doneSignersMutex.
+func (v *VerifC35DoneCheck) DoneSigners() (int, []group.MemberIndex) {
+	v.sdc.doneSignersMutex.Lock()
+	defer v.sdc.doneSignersMutex.Unlock()
+	senders := make([]group.MemberIndex, 0, len(v.sdc.doneSigners))
+	for s := range v.sdc.doneSigners {
+		senders = append(senders, s)
+	}
+	sort.Slice(senders, func(i, j int) bool { return senders[i] < senders[j] })
+	return v.sdc.expectedSignersCount, senders
+}
+
+// VerifC35NewDoneMessage builds a *signingDoneMessage (returned as a net.TaggedMarshaler so
+// that it can travel as a message payload).
+func VerifC35NewDoneMessage(
+	senderID group.MemberIndex,
+	message *big.Int,
+	attemptNumber uint64,
+	signature *tecdsa.Signature,
+	endBlock uint64,
+) net.TaggedMarshaler {
+	return &signingDoneMessage{
+		senderID:      senderID,
+		message:       message,
+		attemptNumber: attemptNumber,
+		signature:     signature,
+		endBlock:      endBlock,
+	}
+}
+
+// VerifC35DoneMessageFields reads back the fields of a *signingDoneMessage payload.
+func VerifC35DoneMessageFields(payload interface{}) (
+	senderID group.MemberIndex,
+	message *big.Int,
+	attemptNumber uint64,
+	signature *tecdsa.Signature,
+	endBlock uint64,
+	ok bool,
+) {
+	m, ok := payload.(*signingDoneMessage)
+	if !ok {
+		return 0, nil, 0, nil, 0, false
+	}
+	return m.senderID, m.message, m.attemptNumber, m.signature, m.endBlock, true
+}
